@@ -992,3 +992,145 @@ example : hasTransaction (storeTx (fun _ => .none) y3 11 63) [10, 11] 11 1000 = 
   store_covers_every_conflicts_attribute _ y3 11 2 63 [10, 11] 11 11 1000 rfl (by decide) (by simp) (by simp) (by decide) (by decide)
 
 end NeoModel.C07
+
+namespace NeoModel.C07
+open NeoModel NeoModel.Fees NeoModel.Admission NeoModel.Pack
+open NeoModel.Generated.FeeConsts
+
+/-! ## 13. every pooled transaction is admissible: an invariant of the pool's life, not a hypothesis -/
+
+/-- what an accepted admission says about the state-independent checks and the on-chain lookup. -/
+theorem admit_pre (c : Chain) (p : Pool) (t : Tx) (h : admit c p t = none) :
+    t.sysFee ≤ c.maxBlockSysFee ∧ t.scriptOk = true ∧ t.size ≤ maxTransactionSize
+    ∧ hasTransaction (c.lookup t.hash) (t.signers.map (·.account)) c.height c.mtb = none := by
+  unfold admit at h
+  split at h; · contradiction
+  split at h; · contradiction
+  split at h; · contradiction
+  split at h; · contradiction
+  split at h; · contradiction
+  split at h; · contradiction
+  rename_i h1 h2 _ _ _ h6
+  simp only at h
+  split at h; · contradiction
+  split at h
+  · simp at h
+  · rename_i hc
+    exact ⟨by omega, by simpa using h2, by omega, hc⟩
+
+/-- a block `blk` takes the chain from `c0` to `c` (one block higher, MaxTraceableBlocks and the configured fee limit
+unchanged, the block's transactions stored the way `StoreAsTransaction` stores them; Policy values, blocked accounts,
+attribute fees may all have changed), seen from a pool: the records under the pooled hashes carry indices of accepted
+blocks, and the standard witnesses of the pooled transactions are the builders' scripts with valid signatures (what
+`stillRelevant_noncanonical_gap` shows cannot be dropped while `fee.Calculate` misprices other accepted scripts). -/
+structure BlockStep (c0 c : Chain) (blk pool : List Tx) : Prop where
+  height : c.height = c0.height + 1
+  mtb : c.mtb = c0.mtb
+  cfg : c.maxBlockSysFee = c0.maxBlockSysFee
+  stored : c.lookup = storeBlock c0.lookup c.height blk
+  recs : ∀ t ∈ pool, recOk c0.height (c0.lookup t.hash)
+  std : ∀ t ∈ pool, ∀ s ∈ t.signers, Wit.isStandard s.wit = true →
+    ∃ ver, StdWit c s.wit ver ∧ (calculate c.base ver).1 ≤ c.maxVerGas
+
+/-- the life of a node's pool: empty; `PoolTx` accepts a transaction (whatever the pool's view was); anything is removed
+(Remove, eviction, expiry); a block arrives and `RemoveStale` keeps what `IsTxStillRelevant` keeps. -/
+inductive PoolRun : Chain → List Tx → Prop where
+  | start (c : Chain) : PoolRun c []
+  | pooled (c : Chain) (pool : List Tx) (t : Tx) (v : Pool) : PoolRun c pool → admit c v t = none → PoolRun c (pool ++ [t])
+  | removed (c : Chain) (pool pool' : List Tx) : PoolRun c pool → pool'.Sublist pool → PoolRun c pool'
+  | block (c0 c : Chain) (blk pool : List Tx) : PoolRun c0 pool → BlockStep c0 c blk pool →
+      PoolRun c (pool.filter (stillRelevantAfter c blk))
+
+/-- **pool_admissible_invariant.** At every moment of that life every pooled transaction passes the chain part of
+`VerifyTx` on the current state: the hypothesis "every pooled transaction is admissible" of `packing_valid_partial` holds
+for every reachable pool. -/
+theorem pool_admissible_invariant {c : Chain} {pool : List Tx} (h : PoolRun c pool) :
+    ∀ t ∈ pool, admit c (freePool t) t = none := by
+  induction h with
+  | start c => intro t ht; simp at ht
+  | pooled c pool t v _ hadm ih =>
+    intro x hx
+    simp only [List.mem_append, List.mem_singleton] at hx
+    rcases hx with hx | rfl
+    · exact ih x hx
+    · have := admit_split c v x
+      rw [hadm] at this
+      cases hf : admit c (freePool x) x with
+      | none => rfl
+      | some e => rw [hf] at this; simp at this
+  | removed c pool pool' _ hs ih => intro t ht; exact ih t (hs.subset ht)
+  | block c0 c blk pool _ hb ih =>
+    intro t ht
+    obtain ⟨htp, hrel⟩ := List.mem_filter.mp ht
+    obtain ⟨h1, h2, h3, h0⟩ := admit_pre c0 _ t (ih t htp)
+    exact stillRelevantAfter_sound c0 c blk t h0 (hb.recs t htp) hb.height hb.mtb hb.stored
+      (by rw [hb.cfg]; exact h1) h2 h3 (hb.std t htp) hrel
+
+/-- **packing_valid_run.** For a pool that is both reachable in that life and built by accepted additions (consistency),
+nothing about the pool remains assumed: what the proposer packs passes the backup's check and the ledger's loop. -/
+theorem packing_valid_run (c : Chain) (bal : Nat × Nat → Nat) (cfg : Cfg) (pool : List Tx) (inMain : Nat → Bool)
+    (inv ver : Bytes)
+    (hs : Sane cfg) (hfee : cfg.maxBlockSysFee = c.maxBlockSysFee)
+    (hwit : (encodeWitness inv ver).length = (encodeWitness cfg.inv cfg.ver).length)
+    (hb : Built c.notary bal pool) (hr : PoolRun c pool)
+    (hne : pick cfg pool ≠ [] ∨ expectedSizeWithoutTx cfg.stateRoot inv ver 0 ≤ cfg.maxBlockSize) :
+    pick cfg pool <+: pool
+    ∧ verifyBlock c bal inMain cfg.maxBlockSize cfg.stateRoot inv ver (pick cfg pool) = none
+    ∧ ledgerLoop c bal inMain 0 [] (pick cfg pool) = none :=
+  packing_valid_reachable c bal cfg pool inMain inv ver hs hfee hwit hb (pool_admissible_invariant hr) hne
+
+-- non-vacuity: t2 is pooled on the example chain, a block with an unrelated transaction arrives, t2 is still pooled and admissible
+example : ∀ t ∈ [t2].filter (stillRelevantAfter (exAfter [yOther]) [yOther]), admit (exAfter [yOther]) (freePool t) t = none := by
+  apply pool_admissible_invariant
+  have p0 : PoolRun exChain [] := PoolRun.start _
+  have p1 : PoolRun exChain ([] ++ [t2]) := PoolRun.pooled exChain [] t2 (freePool t2) p0 (by decide)
+  refine PoolRun.block exChain (exAfter [yOther]) [yOther] [t2] p1 ⟨rfl, rfl, rfl, rfl, ?_, ?_⟩
+  · intro t ht; simp only [List.mem_singleton] at ht; subst ht; trivial
+  · intro t ht s hs _
+    simp only [List.mem_singleton] at ht; subst ht
+    have : s.wit = .std true (emitBytes exSig) (sigScript exKey) := by
+      simp only [t2, List.mem_cons, List.mem_nil_iff, or_false] at hs
+      rcases hs with rfl | rfl <;> rfl
+    rw [this]
+    exact ⟨sigScript exKey, StdWit.sig exKey exSig (by simp [exKey]) (by simp [exSig]) rfl rfl, by
+      show (calculate exChain.base (sigScript exKey)).1 ≤ _
+      rw [exCalc]; decide⟩
+
+example : ([t2].filter (stillRelevantAfter (exAfter [yOther]) [yOther])).map (·.hash) = [40] := by decide
+
+end NeoModel.C07
+
+namespace NeoModel.C07
+open NeoModel NeoModel.Fees NeoModel.Admission NeoModel.Pack
+open NeoModel.Generated.FeeConsts
+open NeoModel.Wire (varUintSize)
+
+/-! ## 14. the repair proposed for the known finding `calc-vs-vm-noncanonical-script`
+
+Not the code as it is: `calculateRepaired` is `fee.Calculate` with the multisig branch pricing the push instructions
+the script really contains (the diff is in the round's report). It becomes the model's `calculate` when the repair
+is applied to /repo. -/
+
+/-- size of an integer push instruction: opcode and operand. -/
+def pushIntSize (op : Nat) : Nat := if op ≤ opPUSHINT256 then 1 + 2 ^ op else 1
+
+def calculateRepaired (base : Nat) (script : Bytes) : Nat × Nat :=
+  if isSignatureContract script then calculate base script
+  else match parseMultiSig script with
+    | some (m, pubs) =>
+      let n := pubs.length
+      let mOp := (script.headD 0).toNat
+      let nOff := pushIntSize mOp + (pubs.map fun p => 2 + p.length).sum
+      let nOp := (script.getD nOff 0).toNat
+      (picoToDatoshi (coeff opPUSHDATA1 * base * (m + n) + (coeff mOp + coeff nOp) * base + base * ecdsaVerifyPrice * n),
+       (calculate base script).2)
+    | none => (0, 0)
+
+set_option maxRecDepth 1000000 in
+/-- on the witness of the known finding the repaired calculator gives what the interpreter charges (2950470 instead of
+2950380), and on the builder's own script it gives what it gave before. -/
+example : (calculateRepaired 300000 ncScript).1 = 2950470
+    ∧ (runWitness ⟨300000, none, true, fun _ => true, fun _ _ => true⟩ ncInv ncScript).map (fun s => picoToDatoshi s.gas) = some 2950470
+    ∧ calculateRepaired 300000 (builtMultisig 2 ncKeys) = calculate 300000 (builtMultisig 2 ncKeys) := by decide
+
+end NeoModel.C07
